@@ -392,6 +392,7 @@ fn canon_c15(req: &str, out: &str, relaxed_dump: bool) -> String {
     };
     let head = req.split(' ').next().unwrap_or("");
     match head {
+        "lt" => String::new(), // lock traces exist in the sync member only
         "g.to_vec" | "g.roots" | "g.leaves" | "g.orphans" | "g.iter" => sort_list(out),
         "g.scc" => {
             let inner = out.trim_start_matches('[').trim_end_matches(']');
@@ -475,6 +476,13 @@ fn c15_props(tier: &str, seed: u64, threads: usize, out: &str) {
                         };
                         // calls that exist in only one member of a pair are outside "calls common to both"
                         let lines: Vec<String> = lines.into_iter().filter(|l| !(a == "un" && (l.starts_with("g.to_dot_attr") || l.contains(" default ")))).collect();
+                        // single-threaded lock traces of the sync member (compared with the lock programs of the model only)
+                        let lines: Vec<String> = if kind == 0 {
+                            lines.into_iter().flat_map(|l| {
+                                let is_op = l.starts_with("connect ") || l.starts_with("try_connect ") || l.starts_with("disconnect ") || l.starts_with("isolate ");
+                                if is_op { vec![l, "lt".to_string()] } else { vec![l] }
+                            }).collect()
+                        } else { lines };
                         let relaxed = lines.iter().any(|l| l.starts_with("g.roundtrip") || l.starts_with("g.de"));
                         let start_a = ctx.outs.len();
                         exec::run_program(&lines, ctx);
